@@ -200,7 +200,10 @@ class _P:
         if isinstance(head, Sym):
             args = []
             while self.peek() not in (None, "]", ")", ";", ",", "|}", ":="):
-                args.append(self.atom())
+                a = self.atom()
+                if isinstance(a, Sym):  # nullary constructor used as an argument
+                    a = None if a.name == "None" else a.name
+                args.append(a)
             if args:
                 return (head.name, *args)
             if head.name == "None":
